@@ -81,7 +81,9 @@ Blobs:
 
 		select {
 		case <-ctx.Done():
-			// If a previous failed, stop.
+			// If a previous failed, stop. No worker is started for
+			// this blob, so release the gate slot taken above.
+			gate.Done()
 			break Blobs
 		default:
 		}
